@@ -317,7 +317,7 @@ pub fn run(ctx: &Ctx) {
             let n = ctx.tier.pick(48u32, 640u32);
             let case = (proptest::collection::vec((0u8..=14, any::<bool>(), any::<bool>(), 0u8..3), 1..24), proptest::sample::select(vec![20u32, 60, 150])).prop_map(|(items, window)| E2eCase { items, window });
             (0..16u32).into_par_iter().for_each(|s| {
-                run_prop(ctx, &format!("e2e-{s}"), n / 16, case.clone(), |c| {
+                vcore::ev::run_prop_shrink(ctx, &format!("e2e-{s}"), n / 16, 16, case.clone(), |c| {
                     ctx.eval();
                     let sc = e2e_scenario(c);
                     let rep = json!({"kind": "e2e", "scenario": crate::e2e::scenario_json(&sc)});
